@@ -87,3 +87,11 @@ Theorem C14_targets_agree_on_wrappers : forall (w : world) ws r sc v st,
   map_target w (S (List.length ws)) (hd r ws) sc (v, st) = target w (S (List.length ws)) (hd r ws) sc (v, st).
 Proof. exact targets_agree_on_wrappers. Qed.
 Print Assumptions C14_targets_agree_on_wrappers.
+(* the package idiom: under a lambda head, around any stack of assert / let / parenthesis wrappers (none included), both walks return the set *)
+Theorem C14_targets_agree_under_lambda : forall (w : world) t ws r sc v st,
+  w_cls w t = CFunDef -> w_output w t = Some (hd r ws) ->
+  linked (wN w) (w_cls w) (w_body w) (w_value w) ws r -> w_cls w r = CSet -> NoDup (t :: ws ++ [r]) -> (forall x, In x (t :: ws ++ [r]) -> ~ In x v) ->
+  (forall x, In x (t :: ws ++ [r]) -> scopes_ok (wN w) (wSC w) (w_store w) (w_scopes w) x sc st) ->
+  fst (map_target w (S (S (List.length ws))) t sc (v, st)) = RVal r /\ fst (target w (S (S (List.length ws))) t sc (v, st)) = RVal r.
+Proof. exact targets_agree_under_lambda. Qed.
+Print Assumptions C14_targets_agree_under_lambda.
